@@ -39,7 +39,7 @@ type C14Params struct {
 	Runs    []C14Run  `json:"runs"`
 }
 
-var c14Versions = []string{"4.1.0", "3.3.5", "10.20.30", "4.2.0-rc1", "4.2.0-RC1", "4.2.0-rc.1", "v4.3.0", "4.4.0+build5", "4.5", "5.0.0-dev", "4.0.1-alpha-2"}
+var c14Versions = []string{"4.1.0", "4.2.0", "3.3.5", "10.20.30", "4.2.0-rc1", "4.2.0-RC1", "4.2.0-rc.1", "v4.3.0", "4.4.0+build5", "4.5", "5.0.0-dev", "4.0.1-alpha-2"}
 
 func shortVersions(v string) []string {
 	all := strings.Join(regexp.MustCompile(`[0-9]+`).FindAllString(v, -1), "")
